@@ -61,6 +61,10 @@ void members_c(arr_cmplx& a, const arr_cmplx& b, const std::vector<bool>& m, con
     arr_cmplx c(b.slice(0, 1)); arr_cmplx d(a.slice(0, 1)); arr_cmplx e(3); arr_cmplx f(b); f = b; f = std::move(e);
     (void)b.to_vec(); (void)+b;
 }
+void utils(const arr_real& a, const arr_cmplx& c) {
+    (void)concatenate(a, a, a); (void)concatenate(c, c); (void)zeropad(a, 4); (void)zeropad(c, 4); (void)delayseq(a, 1);
+    (void)arange(0, 10, 3); (void)arange(10); (void)arange(0.0, 1.0, 0.1);
+}
 void stateful() {
     LmsFilter<real_t> l1(4, 0.1); LmsFilter<cmplx_t> l2(4, 0.1);
     RlsFilter<real_t> r1(4); RlsFilter<cmplx_t> r2(4);
